@@ -1,271 +1,256 @@
-"""C07 translator: reads the structure of `FortranCodeUnit.correlate` from the working
-tree with `ast` and regenerates lean/FordModel/Generated/C07.lean:
+"""C07 translator: regenerates lean/FordModel/Generated/C07.lean from what the working tree DOES.
 
-  correlateRecursion : the attribute names of the `self.iterator(...)` call whose loop body
-                       is `entity.correlate(project)` (the recursion order)
-  typesBeforeRecursion : the `dtype.correlate(project)` loop precedes that recursion
-  hostTables : for all_procs / all_absinterfaces / all_types how the host's table reaches the
-               unit ("update" = self.X.update(getattr(self.parent, X, {})), "alias" = self.X =
-               getattr(self.parent, X, {}), "copy" = a dict built from the host's, "merge-local-over-host")
-  slotLookups : per reference owner class, the tables its `correlate` consults, in source order
-  usedObjects* / usedNamesWrites : shape of `FortranModule.get_used_entities`: what `result` starts
-               from, what is iterated, under which conditions which key is written (the renamed
-               entity is filed under its local name and under nothing else), and the direction of
-               the `used_names` entries
+Every table but one is obtained by PROBING the real code: small hand-written Fortran witness
+projects are parsed and correlated by the implementation under test (`Project(settings)`,
+`Project.correlate()`, in-process) and the decision the code took is read off the objects a user of
+FORD's object tree sees (reference slots, lists of declared entities).  Nothing is read from the
+spelling of the source: renamed locals, hoisted sub-expressions, `enumerate` instead of indexing, a
+block moved into a helper function, a loop over a table of names ... leave every table as it is; a
+change of behaviour on a witness changes a table and with it a theorem statement.
 
-  blockGuards / blockCounter / useBranchBlockAware : the statement dispatcher and BLOCK constructs -
-               which branches are switched off while `blocklevel > 0` (block-local declarations are
-               not filed in the enclosing unit)
+  correlateRecursion / typesBeforeRecursion
+        the order in which `FortranCodeUnit.correlate` correlates the entities a unit holds (each
+        object's `correlate` is wrapped and logs the list it was found in)
+  hostTables
+        how the host's name tables reach a nested unit: "alias" (the very dict object), "copy" (a
+        dict of its own: host entries + local ones, the host's dict untouched), and for all_procs
+        which of a host procedure and a same-named internal procedure the nested unit sees
+        ("update" = the host's, "merge-local-over-host" = its own)
+  slotLookups / lookupsIgnoreCase
+        per kind of reference the name spaces it is looked up in, in PRIORITY order: the witness
+        module declares the name `zz` in every subset of {derived type, procedure, abstract
+        interface, type-bound binding} and refers to `Zz` from every kind of reference slot; the
+        winner of each subset is observed, the priority order derived from the 16 outcomes (and
+        checked to explain all of them)
+  useProbes
+        `use m`, `use m, loc => rem`, `use m, only: ...` (7 statements, mixed letter case): which
+        entity of the used module every candidate name denotes in the using unit afterwards
+  blockFiled / blockNesting
+        which kinds of statement inside a BLOCK construct are filed in the enclosing unit, and that
+        nested / labelled BLOCKs are counted (the unit closes where it should)
+  inheritedGenericShared / inheritedGenericWitness / boundprocsOrder
+        whether the copy of a generic binding an extension inherits shares the parent's list of
+        specifics, what the parent's generic is linked to after an extension overrode the specific,
+        and the order of an extension's `boundprocs` (inherited first)
+  submoduleProbes
+        a submodule's own declarations vs. its parent's, parent submodule by ancestor-and-name or by
+        name alone, visibility of the parent submodule's and the ancestor module's entities
 
-  boundBindingWrites / boundProtoWrites / boundLocalTables : `FortranBoundProcedure.correlate` - which
-               table the names of a binding statement are looked up in, under which conditions
-               (generic: the bindings of the type; specific: all_procs; deferred: nowhere)
-  nameTableMutations : every site of the two source files that binds or mutates a name table
-  inheritedGenericStmts / boundprocsBuild : `FortranType.correlate` - how an inherited generic binding
-               is copied (with or without a list of specifics of its own)
+One table is still read with `ast`, but normalised so that only its MEANING is pinned:
+  nameTableOps / nameTableSites
+        every function of ford/sourceform.py and ford/fortran_project.py that binds, writes into or
+        removes from a name table `all_procs` / `all_types` / `all_absinterfaces` of any object:
+        (Class.method, table, bind | write | remove) as a SET per site - independent of variable
+        names, of `d[k] = v` vs. `d.update(...)`, of the number and order of the statements.  A site
+        is a method the framework calls (`correlate`, `_cleanup`, `_initialize`, ...) or a function
+        nothing calls; what a HELPER does (any other function / method that is called from within the
+        two files) is done by its callers: a table handed to a helper as an argument is followed into
+        the helper's parameter, a local name bound to a table (`tbl = self.all_procs`) stands for it,
+        `getattr` / `setattr` with a literal name or with the variable of a loop over a literal tuple
+        of names count as the attribute access they are.  A table handed to an unknown plain function
+        is recorded as `handed to <name>`.
 
-A construct that cannot be found raises (tie broken, never a pass).
+A witness that cannot be built or read raises (tie broken, never a pass).
 """
 from __future__ import annotations
 
 import ast
-from pathlib import Path
+import itertools
 
 from harness import common
 
-
-def _src():
-    return (common.REPO / "ford" / "sourceform.py").read_text()
-
-
-def _method(tree, cls, name):
-    for n in tree.body:
-        if isinstance(n, ast.ClassDef) and n.name == cls:
-            for m in n.body:
-                if isinstance(m, ast.FunctionDef) and m.name == name:
-                    return m
-    raise LookupError(f"{cls}.{name} not found")
+# --------------------------------------------------------------------------------------------
+# running the implementation on a witness
+# --------------------------------------------------------------------------------------------
 
 
-def _is_self_attr(node, attr=None):
-    return (isinstance(node, ast.Attribute) and isinstance(node.value, ast.Name) and node.value.id == "self"
-            and (attr is None or node.attr == attr))
+def _build(files):
+    """parse the witness with the implementation under test; returns (project, scratch context)"""
+    from harness import c07 as H  # (lazy: harness.c07 imports this module lazily as well)
+
+    ford = common.import_ford()
+    ctx = common.scratch_dir("ford-c07-probe-")
+    d = ctx.__enter__()
+    try:
+        project = H.build_ford(ford, d, files)
+    except BaseException:
+        ctx.__exit__(None, None, None)
+        raise
+    return project, ctx
 
 
-def _is_parent_getattr(node, attr):
-    """getattr(self.parent, "<attr>", {})"""
-    return (isinstance(node, ast.Call) and isinstance(node.func, ast.Name) and node.func.id == "getattr"
-            and len(node.args) >= 2 and _is_self_attr(node.args[0], "parent")
-            and isinstance(node.args[1], ast.Constant) and node.args[1].value == attr)
+def _correlated(files, before=None):
+    """-> (project, exception | None).  `before(project)` runs between parsing and correlation."""
+    common.import_ford()  # (first: puts the working tree under test in front of any installed ford)
+    import ford.fortran_project as fp
+    import ford.sourceform as sf
+
+    project, ctx = _build(files)
+    try:
+        if before is not None:
+            before(project)
+        warns = (sf.warn, fp.warn)
+        sf.warn = fp.warn = lambda *a, **k: None
+        try:
+            with common.quiet():
+                project.correlate()
+        except Exception as e:  # e.g. an unknown finaliser / specific procedure
+            return project, e
+        finally:
+            sf.warn, fp.warn = warns
+        return project, None
+    finally:
+        ctx.__exit__(None, None, None)
 
 
-def _mentions_parent(node, attr):
-    for n in ast.walk(node):
-        if _is_parent_getattr(n, attr):
-            return True
-        if isinstance(n, ast.Attribute) and n.attr == attr and _is_self_attr(n.value, "parent"):
-            return True
-    return False
+def _by(lst, name, what="entity"):
+    for o in lst:
+        if str(getattr(o, "name", "")).lower() == name.lower():
+            return o
+    raise LookupError(f"probe: {what} `{name}` is missing from FORD's object tree")
 
 
-def extract():
-    tree = ast.parse(_src())
-    fn = _method(tree, "FortranCodeUnit", "correlate")
-    rec = None
-    rec_line = None
-    types_line = None
-    for n in ast.walk(fn):
-        if isinstance(n, ast.For) and isinstance(n.iter, ast.Call) and isinstance(n.iter.func, ast.Attribute) \
-                and n.iter.func.attr == "iterator" and isinstance(n.iter.func.value, ast.Name) and n.iter.func.value.id == "self":
-            body_calls = [c for c in ast.walk(n) if isinstance(c, ast.Call) and isinstance(c.func, ast.Attribute) and c.func.attr == "correlate"]
-            if body_calls:
-                rec = [a.value for a in n.iter.args]
-                rec_line = n.lineno
-        if isinstance(n, ast.For) and isinstance(n.target, ast.Name) and n.target.id == "dtype":
-            if any(isinstance(c, ast.Call) and isinstance(c.func, ast.Attribute) and c.func.attr == "correlate" for c in ast.walk(n)):
-                types_line = n.lineno
-    if rec is None or types_line is None:
-        raise LookupError("recursion loop / type correlation loop of FortranCodeUnit.correlate not found")
-    host = {}
-    for attr in ("all_procs", "all_absinterfaces", "all_types"):
-        how = None
-        for st in fn.body:
-            if isinstance(st, ast.Expr) and isinstance(st.value, ast.Call) and isinstance(st.value.func, ast.Attribute) \
-                    and st.value.func.attr == "update" and _is_self_attr(st.value.func.value, attr) \
-                    and st.value.args and _mentions_parent(st.value.args[0], attr):
-                how = "update"
-                break
-            if isinstance(st, ast.Assign) and len(st.targets) == 1 and _is_self_attr(st.targets[0], attr):
-                if _is_parent_getattr(st.value, attr):
-                    how = "alias"
-                elif isinstance(st.value, ast.Dict) and _mentions_parent(st.value, attr):
-                    # {**host, **self.X}: later keys win
-                    keys_none = [k is None for k in st.value.keys]
-                    vals = st.value.values
-                    if all(keys_none) and len(vals) == 2 and _mentions_parent(vals[0], attr) and _is_self_attr(vals[1], attr):
-                        how = "merge-local-over-host"
-                    elif all(keys_none) and len(vals) == 2 and _mentions_parent(vals[1], attr) and _is_self_attr(vals[0], attr):
-                        how = "update"
-                    else:
-                        how = "copy"
-                elif _mentions_parent(st.value, attr):
-                    how = "copy"
-                break
-        if how is None:
-            raise LookupError(f"host association of {attr} not recognised in FortranCodeUnit.correlate")
-        host[attr] = how
-    lookups = {}
-    for cls in ("FortranVariable", "FortranBoundProcedure", "FortranFinalProc", "FortranType", "FortranInterface"):
-        m = _method(tree, cls, "correlate")
-        seq = []
-        for n in ast.walk(m):
-            if isinstance(n, ast.Attribute) and n.attr in ("all_procs", "all_absinterfaces", "all_types"):
-                seq.append((n.lineno, n.col_offset, n.attr))
-        lookups[cls] = [a for _, _, a in sorted(seq)]
-    return {"recursion": rec, "types_before": types_line < rec_line, "host": host, "lookups": lookups}
+def _unit(project, name):
+    for lst in (project.modules, project.submodules, project.programs, project.procedures):
+        for o in lst:
+            if o.name.lower() == name.lower():
+                return o
+    raise LookupError(f"probe: program unit `{name}` is missing from FORD's object tree")
 
 
-def _walk_writes(stmts, conds, target, out):
-    """Every statement of `stmts` (recursively, with the if-conditions it is under) that touches the
-    dict variable `target`: out = {"init": [...], "writes": [(cond, key, value)], "loops": [...], "other": [...]}"""
-    for st in stmts:
-        if isinstance(st, ast.If):
-            t = ast.unparse(st.test)
-            _walk_writes(st.body, conds + [t], target, out)
-            _walk_writes(st.orelse, conds + [f"not ({t})"], target, out)
-        elif isinstance(st, (ast.For, ast.While)):
-            if isinstance(st, ast.For):
-                out["loops"].append(ast.unparse(st.iter))
-            _walk_writes(st.body, conds, target, out)
-            _walk_writes(st.orelse, conds, target, out)
-        elif isinstance(st, ast.Assign) and len(st.targets) == 1 and isinstance(st.targets[0], ast.Name) \
-                and st.targets[0].id == target:
-            out["init"].append(ast.unparse(st.value))
-        elif isinstance(st, ast.Assign) and len(st.targets) == 1 and isinstance(st.targets[0], ast.Subscript) \
-                and isinstance(st.targets[0].value, ast.Name) and st.targets[0].value.id == target:
-            out["writes"].append((" and ".join(conds) or "always", ast.unparse(st.targets[0].slice), ast.unparse(st.value)))
-        elif isinstance(st, (ast.Return, ast.Expr, ast.Assign, ast.AugAssign, ast.AnnAssign, ast.Delete, ast.With, ast.Try)):
-            if isinstance(st, ast.Return) and isinstance(st.value, ast.Name) and st.value.id == target:
-                continue
-            if any(isinstance(n, ast.Name) and n.id == target for n in ast.walk(st)):
-                out["other"].append(ast.unparse(st).splitlines()[0])
-            if isinstance(st, (ast.With, ast.Try)):
-                _walk_writes(getattr(st, "body", []), conds, target, out)
+# --------------------------------------------------------------------------------------------
+# recursion order of FortranCodeUnit.correlate
+# --------------------------------------------------------------------------------------------
+
+_REC_SRC = """
+module q0
+  implicit none
+  type tq
+  end type tq
+  abstract interface
+    subroutine aq()
+    end subroutine aq
+  end interface
+  interface iq
+    subroutine bq()
+    end subroutine bq
+  end interface iq
+  integer :: vq
+  integer :: wq
+  common /cq/ wq
+  namelist /nq/ vq
+contains
+  subroutine sq()
+  end subroutine sq
+  function fq()
+    integer :: fq
+  end function fq
+end module q0
+"""
+
+_REC_LISTS = ("types", "functions", "subroutines", "interfaces", "absinterfaces", "variables", "common", "namelists")
 
 
-def extract_use():
-    """Shape of FortranModule.get_used_entities (the USE import)."""
-    tree = ast.parse(_src())
-    fn = _method(tree, "FortranModule", "get_used_entities")
-    inner = [n for n in fn.body if isinstance(n, ast.FunctionDef) and n.name == "used_objects"]
-    if len(inner) != 1:
-        raise LookupError("inner function used_objects of FortranModule.get_used_entities not found")
-    uo = {"init": [], "writes": [], "loops": [], "other": []}
-    _walk_writes(inner[0].body, [], "result", uo)
-    un = {"init": [], "writes": [], "loops": [], "other": []}
-    _walk_writes([st for st in fn.body if not isinstance(st, ast.FunctionDef)], [], "used_names", un)
-    if not uo["init"] or not uo["writes"] or not un["writes"]:
-        raise LookupError("get_used_entities: construction of `result` / `used_names` not recognised")
-    # `if len(use_specs.strip()) == 0: return (self.pub_procs, ...)`
-    whole = None
-    for st in fn.body:
-        if isinstance(st, ast.If) and st.body and isinstance(st.body[0], ast.Return):
-            whole = (ast.unparse(st.test), ast.unparse(st.body[0].value))
-            break
-    if whole is None:
-        raise LookupError("get_used_entities: early return for a USE without list not found")
-    # the four calls `used_objects("<table>", only)`
-    calls = []
-    for n in ast.walk(fn):
-        if isinstance(n, ast.Call) and isinstance(n.func, ast.Name) and n.func.id == "used_objects":
-            calls.append(", ".join(ast.unparse(a) for a in n.args))
-    return {"used_objects": uo, "used_names": un, "whole": whole, "calls": calls}
+def probe_recursion():
+    order = []
+
+    def wrap(project):
+        m = _unit(project, "q0")
+        for kind in _REC_LISTS:
+            objs = list(getattr(m, kind, []))
+            if not objs and kind not in ("common", "namelists"):
+                raise LookupError(f"probe: the witness module has no `{kind}`")
+            for o in objs:
+                def logged(project_, _k=kind, _orig=o.correlate):
+                    order.append(_k)
+                    return _orig(project_)
+                o.correlate = logged  # instance attribute: found before the method of the class
+
+    _, exc = _correlated({"q.f90": _REC_SRC}, before=wrap)
+    if exc is not None:
+        raise LookupError(f"probe: correlate() failed on the recursion witness: {type(exc).__name__}: {exc}")
+    first = list(dict.fromkeys(order))
+    if "types" not in first or "functions" not in first:
+        raise LookupError("probe: the derived types / functions of the witness module were never correlated")
+    rec = [k for k in first if k != "types"]
+    return {"recursion": rec, "types_before": first.index("types") == 0}
 
 
-def _conjuncts(test):
-    if isinstance(test, ast.BoolOp) and isinstance(test.op, ast.And):
-        out = []
-        for v in test.values:
-            out += _conjuncts(v)
-        return out
-    return [test]
+# --------------------------------------------------------------------------------------------
+# host association of the three name tables
+# --------------------------------------------------------------------------------------------
+
+_HOST_SRC = """
+module h0
+  implicit none
+  type ta
+  end type ta
+  abstract interface
+    subroutine pc()
+    end subroutine pc
+  end interface
+contains
+  subroutine pa()
+  end subroutine pa
+  subroutine pb()
+    type tb
+    end type tb
+    abstract interface
+      subroutine pd()
+      end subroutine pd
+    end interface
+  contains
+    subroutine pa()
+    end subroutine pa
+  end subroutine pb
+end module h0
+"""
 
 
-def _is_blocklevel_zero(node):
-    return (isinstance(node, ast.Compare) and isinstance(node.left, ast.Name) and node.left.id == "blocklevel"
-            and len(node.ops) == 1 and isinstance(node.ops[0], ast.Eq)
-            and isinstance(node.comparators[0], ast.Constant) and node.comparators[0].value == 0)
+def probe_host():
+    got = {}
 
+    def grab(project):
+        # (the internal procedures are taken off the unit's lists at the end of Project.correlate)
+        pb_ = _by(_unit(project, "h0").subroutines, "pb", "module procedure")
+        got["own_pa"] = _by(pb_.subroutines, "pa", "internal procedure")
+        got["pd"] = _by(pb_.absinterfaces, "pd", "abstract interface")
+        got["tb"] = _by(pb_.types, "tb", "type")
 
-def extract_blocks():
-    """The statement dispatcher `FortranContainer.__init__` and BLOCK constructs: for every branch of
-    the if/elif chain of the `for line in source` loop that tests a `self.<X>_RE`, whether the test
-    carries the conjunct `blocklevel == 0` (the statement is then NOT filed in the enclosing unit
-    while inside a BLOCK); where `blocklevel` is counted up and down; whether the body of the USE
-    branch looks at `blocklevel` itself."""
-    tree = ast.parse(_src())
-    fn = _method(tree, "FortranContainer", "__init__")
-    loop = None
-    for n in ast.walk(fn):
-        if isinstance(n, ast.For) and isinstance(n.target, ast.Name) and n.target.id == "line" \
-                and isinstance(n.iter, ast.Name) and n.iter.id == "source":
-            loop = n
-    if loop is None:
-        raise LookupError("FortranContainer.__init__: `for line in source` not found")
-    # the if/elif chain with the most branches
-    best = []
-    for st in loop.body:
-        if isinstance(st, ast.If):
-            chain = []
-            cur = st
-            while True:
-                chain.append(cur)
-                if len(cur.orelse) == 1 and isinstance(cur.orelse[0], ast.If):
-                    cur = cur.orelse[0]
-                else:
-                    break
-            if len(chain) > len(best):
-                best = chain
-    if len(best) < 10:
-        raise LookupError("FortranContainer.__init__: statement dispatcher (if/elif chain) not found")
-    guards = []
-    counter = []
-    use_aware = None
-    for br in best:
-        regs = sorted({n.attr for n in ast.walk(br.test) if isinstance(n, ast.Attribute) and n.attr.endswith("_RE")
-                       and isinstance(n.value, ast.Name) and n.value.id == "self"})
-        guarded = any(_is_blocklevel_zero(c) for c in _conjuncts(br.test))
-        other = [c for c in ast.walk(br.test) if isinstance(c, ast.Name) and c.id == "blocklevel"]
-        if other and not guarded:
-            raise LookupError(f"dispatcher branch {ast.unparse(br.test)!r}: use of blocklevel not recognised")
-        for r in regs:
-            guards.append((r, guarded))
-        for n in ast.walk(ast.Module(body=br.body, type_ignores=[])):
-            if isinstance(n, ast.AugAssign) and isinstance(n.target, ast.Name) and n.target.id == "blocklevel":
-                counter.append(("+".join(regs) or ast.unparse(br.test), ast.unparse(n)))
-        if "USE_RE" in regs:
-            use_aware = any(isinstance(n, ast.Name) and n.id == "blocklevel"
-                            for n in ast.walk(ast.Module(body=br.body, type_ignores=[])))
-    names = [g[0] for g in guards]
-    for need in ("USE_RE", "TYPE_RE", "INTERFACE_RE", "ENUM_RE", "VARIABLE_RE", "ATTRIB_RE", "BLOCK_RE", "END_RE"):
-        if names.count(need) != 1:
-            raise LookupError(f"dispatcher: exactly one branch testing self.{need} expected, found {names.count(need)}")
-    if use_aware is None or not counter:
-        raise LookupError("dispatcher: USE branch / blocklevel counting not found")
-    return {"guards": guards, "counter": counter, "use_aware": use_aware}
-
-
-def block_variant():
-    """'1' = USE statements inside a BLOCK are filed in the enclosing unit like its own, '0' = not,
-    as read from the source."""
-    b = extract_blocks()
-    g = dict(b["guards"])
-    return "0" if (g["USE_RE"] or b["use_aware"]) else "1"
+    project, exc = _correlated({"h.f90": _HOST_SRC}, before=grab)
+    if exc is not None:
+        raise LookupError(f"probe: correlate() failed on the host-association witness: {type(exc).__name__}: {exc}")
+    m = _unit(project, "h0")
+    pb = _by(m.subroutines, "pb", "module procedure")
+    host_pa = _by(m.subroutines, "pa", "module procedure")
+    own_pa = got["own_pa"]
+    out = {}
+    # all_procs: which `pa` the nested unit sees
+    if pb.all_procs is m.all_procs:
+        out["all_procs"] = "alias"
+    elif pb.all_procs.get("pa") is host_pa:
+        out["all_procs"] = "update"
+    elif pb.all_procs.get("pa") is own_pa and pb.all_procs.get("pb") is pb:
+        out["all_procs"] = "merge-local-over-host"
+    else:
+        out["all_procs"] = "other: the nested unit sees neither `pa` / not its host's procedures"
+    for attr, host_name, host_list, own_name in (
+            ("all_absinterfaces", "pc", m.absinterfaces, "pd"),
+            ("all_types", "ta", m.types, "tb")):
+        child, parent = getattr(pb, attr), getattr(m, attr)
+        h, o = _by(host_list, host_name), got[own_name]
+        if child is parent:
+            out[attr] = "alias"
+        elif child.get(host_name) is h and child.get(own_name) is o and own_name not in parent:
+            out[attr] = "copy"
+        else:
+            out[attr] = "other: neither the host's dict nor host entries + local ones"
+    return out
 
 
 def code_variant():
-    """'11' / '00' / ... as read from the source, or None when the shape is neither."""
-    x = extract()["host"]
+    """'11' / '00' / ... (alias, hostOverLocal) as probed, or None when the behaviour is neither."""
+    x = probe_host()
     if x["all_types"] != x["all_absinterfaces"]:
         return None
     alias = {"alias": "1", "copy": "0"}.get(x["all_types"])
@@ -275,324 +260,831 @@ def code_variant():
     return alias + hol
 
 
-def _walk_stmts(stmts, conds, visit):
-    """visit(statement, [conditions it is under]) for every simple statement, recursively through
-    if / for / while / with / try"""
-    for st in stmts:
-        if isinstance(st, ast.If):
-            t = ast.unparse(st.test)
-            _walk_stmts(st.body, conds + [t], visit)
-            _walk_stmts(st.orelse, conds + [f"not ({t})"], visit)
-        elif isinstance(st, (ast.For, ast.While)):
-            _walk_stmts(st.body, conds, visit)
-            _walk_stmts(st.orelse, conds, visit)
-        elif isinstance(st, ast.With):
-            _walk_stmts(st.body, conds, visit)
-        elif isinstance(st, ast.Try):
-            _walk_stmts(st.body, conds, visit)
-            for h in st.handlers:
-                _walk_stmts(h.body, conds + ["except"], visit)
-            _walk_stmts(st.orelse, conds, visit)
-            _walk_stmts(st.finalbody, conds, visit)
-        elif isinstance(st, ast.FunctionDef):
-            continue
-        else:
-            visit(st, conds)
+# --------------------------------------------------------------------------------------------
+# which name spaces each kind of reference is looked up in, and in which order
+# --------------------------------------------------------------------------------------------
+
+_SPACES = ("all_types", "all_procs", "all_absinterfaces", "bindings")
+
+_TY = "  type zz\n  end type zz\n"
+_AB = "  abstract interface\n    subroutine zz()\n    end subroutine zz\n  end interface\n"
+_PR = "  subroutine zz()\n  end subroutine zz\n"
+_BD = "    procedure, nopass :: zz => yy\n"
 
 
-def _cond(conds):
-    return " and ".join(conds) or "always"
+def _lookup_files(S, ref):
+    """the four witness modules for the subset S of name spaces that declare `zz`; `ref` is the
+    spelling of the references"""
+    ty, pr, ab, bd = ("all_types" in S), ("all_procs" in S), ("all_absinterfaces" in S), ("bindings" in S)
+    k0 = ("module k0\n  implicit none\n" + (_TY if ty else "") + (_AB if ab else "")
+          + f"  type, abstract, extends({ref}) :: te\n"
+          + f"    type({ref}), pointer :: c1\n"
+          + f"    procedure({ref}), pointer, nopass :: c2\n"
+          + "  contains\n"
+          + f"    procedure, nopass :: b1 => {ref}\n"
+          + f"    procedure({ref}), deferred, nopass :: b2\n"
+          + (_BD if bd else "")
+          + f"    generic :: g1 => {ref}\n"
+          + "  end type te\n"
+          + "  type, abstract :: tf\n  contains\n"
+          + f"    procedure(yy), deferred, nopass :: {ref}\n"
+          + "  end type tf\n"
+          + f"  type({ref}), pointer :: v1\n"
+          + f"  class({ref}), pointer :: v2\n"
+          + f"  procedure({ref}), pointer :: v3\n"
+          + "contains\n" + (_PR if pr else "")
+          + "  subroutine s1(x1)\n"
+          + f"    type({ref}) :: x1\n"
+          + "  end subroutine s1\n"
+          + "  function f1() result(r1)\n"
+          + f"    procedure({ref}), pointer :: r1\n"
+          + "  end function f1\n"
+          + "end module k0\n")
+    k1 = ("module k1\n  implicit none\n" + (_TY if ty else "") + (_AB if ab else "")
+          + "  type tg\n  contains\n" + (_BD if bd else "")
+          + f"    final :: {ref}\n"
+          + "  end type tg\ncontains\n" + (_PR if pr else "") + "end module k1\n")
+    # the constructor of a type is looked up under the type's own name: the type is `zz` itself
+    k2 = ("module k2\n  implicit none\n" + (_AB if ab else "")
+          + f"  type {ref}\n" + ("  contains\n" + _BD if bd else "") + f"  end type {ref}\n"
+          + ("  interface zz\n    module procedure mk\n  end interface zz\n" if pr else "")
+          + "contains\n  function mk()\n    integer :: mk\n  end function mk\nend module k2\n")
+    k3 = ("module k3\n  implicit none\n" + (_TY if ty else "") + (_AB if ab else "")
+          + ("  type th\n  contains\n" + _BD + "  end type th\n" if bd else "")
+          + f"  interface gi\n    module procedure {ref}\n  end interface gi\n"
+          + "contains\n" + (_PR if pr else "") + "end module k3\n")
+    return k0, k1, k2, k3
 
 
-def extract_bound():
-    """`FortranBoundProcedure.correlate`: every write to `self.bindings[...]` and to `self.proto`
-    with the conditions it is under and the table it reads, and the local dicts it builds.  (A
-    deferred binding must be looked up nowhere, a generic one among the bindings of the type, a
-    specific one among the procedures of the scope.)"""
-    tree = ast.parse(_src())
-    fn = _method(tree, "FortranBoundProcedure", "correlate")
-    writes, protos, local, other = [], [], [], []
-
-    def visit(st, conds):
-        if isinstance(st, ast.Assign) and len(st.targets) == 1:
-            tg = st.targets[0]
-            if isinstance(tg, ast.Subscript) and _is_self_attr(tg.value, "bindings"):
-                writes.append((_cond(conds), ast.unparse(st.value)))
-                return
-            if _is_self_attr(tg, "proto"):
-                protos.append((_cond(conds), ast.unparse(st.value)))
-                return
-            if isinstance(tg, ast.Name) and isinstance(st.value, (ast.Dict, ast.DictComp, ast.Attribute, ast.IfExp, ast.Call)) \
-                    and any(isinstance(n, ast.Attribute) and n.attr in ("boundprocs", "all_procs", "all_absinterfaces", "all_types")
-                            for n in ast.walk(st.value)):
-                local.append((_cond(conds), tg.id, ast.unparse(st.value)))
-                return
-        if any(isinstance(n, ast.Attribute) and n.attr == "bindings" for n in ast.walk(st)) and \
-                any(isinstance(n, (ast.Store, ast.Del)) for n in ast.walk(st)):
-            # anything else that may write into `bindings` (slices, augmented assignment, del ...)
-            tgt = [t for t in getattr(st, "targets", [getattr(st, "target", None)]) if t is not None]
-            if any(isinstance(n, ast.Attribute) and n.attr == "bindings" for t in tgt for n in ast.walk(t)
-                   if not (isinstance(t, ast.Attribute) and t.attr == "binding")):
-                other.append(ast.unparse(st).splitlines()[0])
-
-    _walk_stmts(fn.body, [], visit)
-    if not writes or not protos:
-        raise LookupError("FortranBoundProcedure.correlate: writes to self.bindings[...] / self.proto not found")
-    return {"writes": writes, "protos": protos, "local": local, "other": other}
+def _space_of(o, spaces):
+    """which declared `zz` the object stored in a slot is"""
+    if o is None or isinstance(o, (str, bool)):
+        return None
+    for sp, cand in spaces.items():
+        if cand is not None and (o is cand or getattr(o, "procedure", None) is cand or getattr(cand, "procedure", None) is o):
+            return sp
+    return f"other:{type(o).__name__}"
 
 
-_TABLES = ("all_procs", "all_types", "all_absinterfaces")
-_MUTATORS = ("update", "pop", "popitem", "clear", "setdefault", "__setitem__", "__delitem__")
+def _find(lst, name):
+    for o in lst:
+        if str(getattr(o, "name", "")).lower() == name:
+            return o
+    return None
 
 
-def extract_mutations():
-    """Every statement of ford/sourceform.py and ford/fortran_project.py that binds or mutates a
-    name table `all_procs` / `all_types` / `all_absinterfaces` of any object: (Class.method,
-    statement).  The model builds these tables in `_cleanup` and `correlate` of the code unit and
-    nowhere else; any other site that edits one (e.g. a clean-up that removes an entry) is outside
-    it and changes this list."""
-    out = []
-    for rel in ("sourceform.py", "fortran_project.py"):
-        tree = ast.parse((common.REPO / "ford" / rel).read_text())
-        for cls in tree.body:
-            if not isinstance(cls, ast.ClassDef):
-                continue
-            for m in cls.body:
-                if not isinstance(m, ast.FunctionDef):
-                    continue
-                for st in ast.walk(m):
-                    hit = False
-                    if isinstance(st, (ast.Assign, ast.AugAssign, ast.AnnAssign, ast.Delete)):
-                        tgts = st.targets if isinstance(st, (ast.Assign, ast.Delete)) else [st.target]
-                        for t in tgts:
-                            base = t.value if isinstance(t, ast.Subscript) else t
-                            if isinstance(base, ast.Attribute) and base.attr in _TABLES:
-                                hit = True
-                    elif isinstance(st, ast.Expr) and isinstance(st.value, ast.Call) and isinstance(st.value.func, ast.Attribute) \
-                            and st.value.func.attr in _MUTATORS and isinstance(st.value.func.value, ast.Attribute) \
-                            and st.value.func.value.attr in _TABLES:
-                        hit = True
-                    elif isinstance(st, ast.Call) and isinstance(st.func, ast.Attribute) and st.func.attr in _MUTATORS \
-                            and isinstance(st.func.value, ast.Attribute) and st.func.value.attr in _TABLES:
-                        hit = "call"
-                    if hit is True:
-                        out.append((f"{cls.name}.{m.name}", " ".join(ast.unparse(st).split())[:160]))
-                    elif hit == "call":
-                        txt = " ".join(ast.unparse(st).split())[:160]
-                        if not any(txt in o[1] for o in out if o[0] == f"{cls.name}.{m.name}"):
-                            out.append((f"{cls.name}.{m.name}", txt))
-    if not any(o[0] == "FortranCodeUnit.correlate" for o in out) or not any(o[0] == "FortranCodeUnit._cleanup" for o in out):
-        raise LookupError("construction of the name tables in FortranCodeUnit._cleanup / correlate not found")
+def _lookup_outcomes(S, ref):
+    """{reference kind: name space of the object FORD stored | None (text) | 'raise'}"""
+    k0, k1, k2, k3 = _lookup_files(S, ref)
+    out = {}
+    # --- k0: every slot that cannot make correlate() fail
+    project, exc = _correlated({"k0.f90": k0})
+    if exc is not None:
+        raise LookupError(f"probe: correlate() failed on the lookup witness {sorted(S)}: {type(exc).__name__}: {exc}")
+    m = _unit(project, "k0")
+    te = _by(m.types, "te", "type")
+    tf = _by(m.types, "tf", "type")
+    sp = {"all_types": _find(m.types, "zz"), "all_procs": _find(m.subroutines, "zz"),
+          "all_absinterfaces": _find(m.absinterfaces, "zz"),
+          "bindings": next((b for b in te.boundprocs if b.name.lower() == "zz" and getattr(b, "parent", None) is te), None)}
+    for k in S:
+        if sp[k] is None:
+            raise LookupError(f"probe: the `zz` declared as {k} is missing from FORD's object tree")
+    comp = {v.name.lower(): v for v in getattr(te, "local_variables", te.variables)}
+    out["parent type"] = _space_of(te.extends, sp)
+    out["component type"] = _space_of(comp["c1"].proto[0], sp)
+    out["component procedure"] = _space_of(comp["c2"].proto[0], sp)
+    out["binding target"] = _space_of(_by(te.boundprocs, "b1", "binding").bindings[0], sp)
+    out["deferred binding interface"] = _space_of(_by(te.boundprocs, "b2", "binding").proto, sp)
+    out["generic binding specific"] = _space_of(_by(te.boundprocs, "g1", "binding").bindings[0], sp)
+    dname = _by(tf.boundprocs, "zz", "deferred binding")
+    out["deferred binding name"] = _space_of(dname.bindings[0] if dname.bindings else None, sp)
+    out["variable type"] = _space_of(_by(m.variables, "v1", "variable").proto[0], sp)
+    out["variable class"] = _space_of(_by(m.variables, "v2", "variable").proto[0], sp)
+    out["variable procedure"] = _space_of(_by(m.variables, "v3", "variable").proto[0], sp)
+    out["argument type"] = _space_of(_by(m.subroutines, "s1", "procedure").args[0].proto[0], sp)
+    out["result procedure"] = _space_of(_by(m.functions, "f1", "procedure").retvar.proto[0], sp)
+    # --- k1: finaliser (FORD may fail on an unknown one)
+    project, exc = _correlated({"k1.f90": k1})
+    m = _unit(project, "k1")
+    tg = _by(m.types, "tg", "type")
+    sp = {"all_types": _find(m.types, "zz"), "all_procs": _find(m.subroutines, "zz"),
+          "all_absinterfaces": _find(m.absinterfaces, "zz"), "bindings": _find(tg.boundprocs, "zz")}
+    if not tg.finalprocs:
+        raise LookupError("probe: the finaliser of the witness type is missing from FORD's object tree")
+    got = _space_of(tg.finalprocs[0].procedure, sp)
+    out["finaliser"] = got if (exc is None or got is not None) else "raise"
+    # --- k2: constructor
+    project, exc = _correlated({"k2.f90": k2})
+    if exc is not None:
+        raise LookupError(f"probe: correlate() failed on the constructor witness {sorted(S)}: {type(exc).__name__}: {exc}")
+    m = _unit(project, "k2")
+    tz = _by(m.types, "zz", "type")
+    sp = {"all_types": tz, "all_procs": next((i for i in m.interfaces if i.name.lower() == "zz"), None),
+          "all_absinterfaces": _find(m.absinterfaces, "zz"), "bindings": _find(tz.boundprocs, "zz")}
+    out["constructor"] = _space_of(tz.constructor, sp)
+    # --- k3: specific procedure of a generic interface (FORD raises on an unknown one)
+    project, exc = _correlated({"k3.f90": k3})
+    m = _unit(project, "k3")
+    gi = _by(m.interfaces, "gi", "generic interface")
+    th = _find(m.types, "th")
+    sp = {"all_types": _find(m.types, "zz"), "all_procs": _find(m.subroutines, "zz"),
+          "all_absinterfaces": _find(m.absinterfaces, "zz"), "bindings": _find(th.boundprocs, "zz") if th else None}
+    got = _space_of(gi.modprocs[0].procedure, sp) if gi.modprocs else None
+    out["generic interface specific"] = got if (exc is None or got is not None) else "raise"
     return out
 
 
-def extract_inherit():
-    """`FortranType.correlate`: how a generic binding of the parent type reaches the extension - the
-    statements of the branches `bp.generic` of the loop over `self.extends.boundprocs` - and the
-    statement that builds `self.boundprocs` from them."""
-    tree = ast.parse(_src())
-    fn = _method(tree, "FortranType", "correlate")
-    branches = []
-    build = []
+_REF_KINDS = ("parent type", "component type", "component procedure", "binding target", "deferred binding interface",
+              "generic binding specific", "deferred binding name", "variable type", "variable class",
+              "variable procedure", "argument type", "result procedure", "finaliser", "constructor",
+              "generic interface specific")
 
-    def visit(st, conds):
-        if any("bp.generic" in c and not c.startswith("not") for c in conds[-1:]):
-            branches.append(" ".join(ast.unparse(st).split()))
-        if isinstance(st, ast.Assign) and len(st.targets) == 1 and _is_self_attr(st.targets[0], "boundprocs"):
-            build.append(ast.unparse(st.value))
+_LOOKUPS = None
 
-    _walk_stmts(fn.body, [], visit)
-    if not branches or not build:
-        raise LookupError("FortranType.correlate: inheritance of generic bindings not found")
-    return {"branches": branches, "build": build}
+
+def probe_lookups():
+    """{reference kind: [name spaces in priority order]}, references spelled in another letter case
+    than the declarations; plus whether a reference spelled exactly like the declaration gives the same."""
+    global _LOOKUPS
+    if _LOOKUPS is not None:
+        return _LOOKUPS
+    subsets = [frozenset(c) for n in range(len(_SPACES) + 1) for c in itertools.combinations(_SPACES, n)]
+    outcomes = {S: _lookup_outcomes(S, "Zz") for S in subsets}
+    prio = {}
+    for kind in _REF_KINDS:
+        S = frozenset(_SPACES)
+        if kind == "constructor":
+            # (the type itself always exists)
+            pass
+        order = []
+        while True:
+            w = outcomes[S][kind]
+            if w is None or w == "raise":
+                break
+            if w not in S:
+                raise LookupError(f"probe: {kind}: FORD stored {w} although only {sorted(S)} declare the name")
+            order.append(w)
+            S = S - {w}
+        # the priority order must explain all 16 outcomes
+        for T in subsets:
+            want = next((x for x in order if x in T), None)
+            got = outcomes[T][kind]
+            got = None if got == "raise" else got
+            if got != want:
+                raise LookupError(f"probe: {kind}: the look-up is not a priority order over the name spaces "
+                                  f"(declared {sorted(T)}: FORD stores {got}, order {order} gives {want})")
+        prio[kind] = order
+    same = _lookup_outcomes(frozenset(_SPACES), "zz")
+    full = outcomes[frozenset(_SPACES)]
+    ignore_case = all((None if same[k] == "raise" else same[k]) == (None if full[k] == "raise" else full[k]) for k in _REF_KINDS)
+    _LOOKUPS = {"priority": prio, "ignore_case": ignore_case,
+                "unknown_raises": sorted(k for k in _REF_KINDS if outcomes[frozenset()][k] == "raise")}
+    return _LOOKUPS
+
+
+# --------------------------------------------------------------------------------------------
+# USE statements
+# --------------------------------------------------------------------------------------------
+
+# entity numbers of the public entities of the used module (the Lean theorem uses the same)
+USE_TYPES = [("ta", 1), ("tb", 2), ("tc", 3)]
+USE_PROCS = [("pa", 4), ("pb", 5)]
+USE_ABS = [("aa", 6)]
+# (only, [(local, remote)]) and the spelling of the statement
+USE_FORMS = [
+    (False, [], "use u0"),
+    (False, [("tx", "ta")], "use u0, tx => ta"),
+    (False, [("tx", "ta"), ("px", "pa"), ("ax", "aa")], "use u0, tx => ta, px => pa, ax => aa"),
+    (True, [("ta", "ta"), ("pa", "pa")], "use u0, only: ta, pa"),
+    (True, [("tx", "ta"), ("tb", "tb"), ("px", "pa")], "use u0, only: tx => ta, tb, px => pa"),
+    (True, [("tx", "ta"), ("px", "pb")], "USE u0, ONLY: Tx => TA, PX=>Pb"),
+    (True, [("ax", "aa"), ("tc", "tc")], "use u0 , only : ax => aa , tc"),
+]
+USE_TYPE_NAMES = ["ta", "tb", "tc", "tx"]
+USE_PROC_NAMES = ["pa", "pb", "px", "aa", "ax"]
+
+
+def probe_use():
+    """[(only, items, [(is_type, name, entity number | None)])]"""
+    src = ["module u0", "  implicit none"]
+    for n, _ in USE_TYPES:
+        src += [f"  type {n}", f"  end type {n}"]
+    for n, _ in USE_ABS:
+        src += ["  abstract interface", f"    subroutine {n}()", f"    end subroutine {n}", "  end interface"]
+    src += ["contains"]
+    for n, _ in USE_PROCS:
+        src += [f"  subroutine {n}()", f"  end subroutine {n}"]
+    src += ["end module u0"]
+    for k, (_, _, stmt) in enumerate(USE_FORMS):
+        src += [f"module w{k}", f"  {stmt}", "  implicit none"]
+        for j, n in enumerate(USE_TYPE_NAMES):
+            src += [f"  type({n}), pointer :: vt{j}"]
+        for j, n in enumerate(USE_PROC_NAMES):
+            src += [f"  procedure({n}), pointer :: vp{j}"]
+        src += [f"end module w{k}"]
+    project, exc = _correlated({"u.f90": "\n".join(src) + "\n"})
+    if exc is not None:
+        raise LookupError(f"probe: correlate() failed on the USE witness: {type(exc).__name__}: {exc}")
+    u0 = _unit(project, "u0")
+    num = {}
+    for n, e in USE_TYPES:
+        num[id(_by(u0.types, n))] = e
+    for n, e in USE_PROCS:
+        num[id(_by(u0.subroutines, n))] = e
+    for n, e in USE_ABS:
+        num[id(_by(u0.absinterfaces, n))] = e
+    out = []
+    for k, (only, items, _) in enumerate(USE_FORMS):
+        w = _unit(project, f"w{k}")
+        res = []
+        for is_type, names, pre in ((True, USE_TYPE_NAMES, "vt"), (False, USE_PROC_NAMES, "vp")):
+            for j, n in enumerate(names):
+                o = _by(w.variables, f"{pre}{j}", "variable").proto[0]
+                if o is None or isinstance(o, str):
+                    res.append((is_type, n, None))
+                elif id(o) in num:
+                    res.append((is_type, n, num[id(o)]))
+                else:
+                    raise LookupError(f"probe: `{n}` after `{USE_FORMS[k][2]}` is linked to an object that u0 does not declare")
+        out.append((only, items, res))
+    return out
+
+
+# --------------------------------------------------------------------------------------------
+# BLOCK constructs
+# --------------------------------------------------------------------------------------------
+
+_BLOCK_SRC = """
+module u1
+  implicit none
+  type tu
+  end type tu
+end module u1
+module b0
+  implicit none
+contains
+  subroutine s1(x1)
+    integer :: x1
+    type(tu), pointer :: v2
+    block
+      use u1
+      type tq
+      end type tq
+      interface
+        subroutine pq()
+        end subroutine pq
+      end interface
+      abstract interface
+        subroutine aq()
+        end subroutine aq
+      end interface
+      enum, bind(c)
+        enumerator :: eq = 1
+      end enum
+      integer :: wq
+      target :: x1
+    end block
+  end subroutine s1
+end module b0
+"""
+
+# (a file of its own: an implementation that loses count of the BLOCKs fails to parse it)
+_NEST_SRC = """
+module b1
+  implicit none
+contains
+  subroutine s2()
+    outer: block
+      block
+        integer :: wi
+      end block
+      type tn
+      end type tn
+    end block outer
+  contains
+    subroutine s3()
+    end subroutine s3
+  end subroutine s2
+  subroutine s4()
+  end subroutine s4
+end module b1
+"""
+
+
+def probe_blocks():
+    got = {}
+
+    def grab(project):
+        # the object tree as parsed (local entities of procedures are taken off the lists at the end
+        # of Project.correlate)
+        b0 = _unit(project, "b0")
+        s1 = _by(b0.subroutines, "s1", "the procedure with the BLOCK construct")
+        got["v2"] = _by(s1.variables, "v2", "variable")
+        x1 = s1.args[0]
+        got["filed"] = [
+            ("type", any(t.name.lower() == "tq" for t in s1.types)),
+            ("interface", any(i.name.lower() == "pq" for i in s1.interfaces)),
+            ("absinterface", any(i.name.lower() == "aq" for i in s1.absinterfaces)),
+            ("enum", bool(getattr(s1, "enums", []))),
+            ("variable", any(v.name.lower() == "wq" for v in s1.variables)),
+            ("attribute", any("target" in str(a).lower() for a in getattr(x1, "attribs", []))),
+        ]
+        b1 = next((m for m in project.modules if m.name.lower() == "b1"), None)
+        if b1 is not None:
+            got["names"] = [s.name.lower() for s in b1.subroutines]
+            s2 = next((s for s in b1.subroutines if s.name.lower() == "s2"), None)
+            if s2 is not None:
+                got["tn"] = any(t.name.lower() == "tn" for t in s2.types) or any(v.name.lower() == "wi" for v in s2.variables)
+                got["s2kids"] = [k.name.lower() for k in s2.subroutines]
+
+    project, exc = _correlated({"b0.f90": _BLOCK_SRC, "b1.f90": _NEST_SRC}, before=grab)
+    if exc is not None:
+        raise LookupError(f"probe: correlate() failed on the BLOCK witness: {type(exc).__name__}: {exc}")
+    u1 = _unit(project, "u1")
+    filed = [("use", got["v2"].proto[0] is _by(u1.types, "tu"))] + got["filed"]
+    nesting = [("a unit with nested and labelled BLOCK constructs closes at its own END statement",
+                got.get("names") == ["s2", "s4"]),
+               ("a declaration after the END of a nested BLOCK is still inside the outer BLOCK",
+                "tn" in got and not got["tn"]),
+               ("the internal procedure after the BLOCKs belongs to the unit", got.get("s2kids") == ["s3"])]
+    return {"filed": filed, "nesting": nesting}
+
+
+def block_variant():
+    """'1' = what a USE statement inside a BLOCK makes accessible is visible in the enclosing unit,
+    '0' = not; as probed."""
+    return "1" if dict(probe_blocks()["filed"])["use"] else "0"
+
+
+# --------------------------------------------------------------------------------------------
+# inherited generic bindings
+# --------------------------------------------------------------------------------------------
+
+_GENERIC_SRC = """
+module g0
+  implicit none
+  type ta
+  contains
+    procedure, nopass :: pa => pb
+    procedure, nopass :: pz => pb
+    generic :: g1 => pa
+  end type ta
+  type, extends(ta) :: tb
+  contains
+    procedure, nopass :: pa => pc
+  end type tb
+contains
+  subroutine pb()
+  end subroutine pb
+  subroutine pc()
+  end subroutine pc
+end module g0
+"""
+
+
+def probe_generic():
+    project, exc = _correlated({"g.f90": _GENERIC_SRC})
+    if exc is not None:
+        raise LookupError(f"probe: correlate() failed on the generic-binding witness: {type(exc).__name__}: {exc}")
+    m = _unit(project, "g0")
+    ta, tb = _by(m.types, "ta", "type"), _by(m.types, "tb", "type")
+    g_ta = next((b for b in ta.boundprocs if b.name.lower() == "g1"), None)
+    g_tb = next((b for b in tb.boundprocs if b.name.lower() == "g1"), None)
+    if g_ta is None or g_tb is None:
+        raise LookupError("probe: the generic binding / its inherited copy is missing from FORD's object tree")
+    pa_ta = next(b for b in ta.boundprocs if b.name.lower() == "pa")
+    pa_tb = next(b for b in tb.boundprocs if b.name.lower() == "pa" and not getattr(b, "generic", False))
+    spec = g_ta.bindings[0] if g_ta.bindings else None
+    witness = "ta" if spec is pa_ta else "tb" if spec is pa_tb else "other"
+    spec_b = g_tb.bindings[0] if g_tb.bindings else None
+    witness_b = "ta" if spec_b is pa_ta else "tb" if spec_b is pa_tb else "other"
+    return {"shared": g_ta.bindings is g_tb.bindings, "witness": witness, "witness_ext": witness_b,
+            "order": [b.name.lower() for b in tb.boundprocs]}
 
 
 def generic_variant():
     """'1' = the copy of a generic binding that an extension inherits keeps the parent's list of
-    specifics (shallow `copy.copy` only), '0' = it gets a list of its own; as read from the source."""
-    br = extract_inherit()["branches"]
-    copies = [b for b in br if "copy.copy(bp)" in b]
-    own = [b for b in br if b.replace(" ", "") in ("gen.bindings=list(bp.bindings)", "gen.bindings=bp.bindings.copy()",
-                                                   "gen.bindings=copy.copy(bp.bindings)", "gen.bindings=bp.bindings[:]")]
-    if not copies:
-        raise LookupError("FortranType.correlate: `copy.copy(bp)` of an inherited generic binding not found")
-    return "0" if len(own) == len(copies) else "1"
+    specifics, '0' = it has a list of its own; as probed."""
+    return "1" if probe_generic()["shared"] else "0"
 
 
-def extract_sub():
-    """Submodules: the test with which `fortran_project.find_used_modules` picks the parent submodule
-    out of the project's list, and the statements of the FortranSubmodule branch of
-    `FortranCodeUnit.correlate` that bring the parent's tables in."""
-    tree = ast.parse((common.REPO / "ford" / "fortran_project.py").read_text())
-    fn = next((n for n in tree.body if isinstance(n, ast.FunctionDef) and n.name == "find_used_modules"), None)
-    if fn is None:
-        raise LookupError("fortran_project.find_used_modules not found")
-    tests = []
-    for n in ast.walk(fn):
-        if isinstance(n, ast.For) and isinstance(n.target, ast.Name) and n.target.id == "submod":
-            for st in n.body:
-                if isinstance(st, ast.If):
-                    tests.append(" ".join(ast.unparse(st.test).split()))
-    if len(tests) != 1:
-        raise LookupError("find_used_modules: the loop that looks the parent submodule up was not recognised")
-    tree = ast.parse(_src())
-    fn = _method(tree, "FortranCodeUnit", "correlate")
-    inherit = []
+# --------------------------------------------------------------------------------------------
+# submodules
+# --------------------------------------------------------------------------------------------
 
-    def visit(st, conds):
-        txt = " ".join(ast.unparse(st).split())
-        if any(isinstance(n, ast.Attribute) and n.attr in _TABLES for n in ast.walk(st)) and any(
-                w in txt for w in _SUB_HOSTS):
-            if isinstance(st, (ast.Assign, ast.AugAssign)) or (isinstance(st, ast.Expr) and isinstance(st.value, ast.Call)):
-                inherit.append((_cond(conds), txt))
-        elif isinstance(st, ast.Assign) and len(st.targets) == 1 and isinstance(st.targets[0], ast.Name) \
-                and st.targets[0].id == "submodule_host" and not (isinstance(st.value, ast.Constant) and st.value.value is None):
-            # (repaired shape) which unit the submodule's host is
-            inherit.append((_cond(conds), txt))
+_SUB_SRC = """
+module m0
+  implicit none
+  type ta
+  end type ta
+  type tm
+  end type tm
+  interface
+    module subroutine px()
+    end subroutine px
+  end interface
+contains
+  subroutine pc()
+  end subroutine pc
+end module m0
+submodule (m0) s1
+  implicit none
+  type ta
+  end type ta
+  type tl
+  end type tl
+  interface
+    module subroutine px()
+    end subroutine px
+  end interface
+  type(ta), pointer :: v1
+  procedure(pc), pointer :: v2
+contains
+  subroutine pc()
+  end subroutine pc
+end submodule s1
+submodule (m0:s1) s2
+  implicit none
+  type(tl), pointer :: v4
+  type(tm), pointer :: v5
+contains
+  module subroutine px()
+  end subroutine px
+end submodule s2
+module m1
+  implicit none
+end module m1
+submodule (m1) s1
+  implicit none
+end submodule s1
+submodule (m1:s1) s3
+  implicit none
+  type(ta), pointer :: v3
+end submodule s3
+"""
 
-    _walk_stmts(fn.body, [], visit)
-    if not inherit:
-        raise LookupError("FortranCodeUnit.correlate: inheritance of the parent's tables by a submodule not found")
-    return {"parent_test": tests[0], "inherit": inherit}
 
+def probe_sub():
+    got = {}
 
-_SUB_HOSTS = ("parent_submodule.", "ancestor_module.", "submodule_host.")
+    def grab(project):
+        # (the separate module procedures are taken off `subroutines` at the end of the unit's correlate)
+        for s in project.submodules:
+            if s.name.lower() == "s2":
+                got["px"] = _by(s.subroutines, "px", "separate module procedure")
+
+    project, exc = _correlated({"s.f90": _SUB_SRC}, before=grab)
+    if "px" not in got:
+        raise LookupError("probe: submodule s2 is missing from FORD's object tree")
+    if exc is not None:
+        raise LookupError(f"probe: correlate() failed on the submodule witness: {type(exc).__name__}: {exc}")
+
+    def sub(name, anc):
+        for s in project.submodules:
+            a = s.ancestor_module
+            if s.name.lower() == name and str(getattr(a, "name", a)).lower() == anc:
+                return s
+        raise LookupError(f"probe: submodule {name} of {anc} is missing from FORD's object tree")
+
+    m0 = _unit(project, "m0")
+    s1, s2, s1b, s3 = sub("s1", "m0"), sub("s2", "m0"), sub("s1", "m1"), sub("s3", "m1")
+
+    def who(o, cands):
+        if o is None or isinstance(o, str):
+            return "text"
+        for label, c in cands:
+            if o is c or getattr(c, "procedure", None) is o or getattr(o, "procedure", None) is c:
+                return label
+        return "other"
+
+    v = {x.name.lower(): x for s in (s1, s2, s3) for x in s.variables}
+    out = [
+        ("a type of the submodule and a same-named type of its ancestor module",
+         who(v["v1"].proto[0], [("local", _by(s1.types, "ta")), ("ancestor", _by(m0.types, "ta"))])),
+        ("a procedure of the submodule and a same-named procedure of its ancestor module",
+         who(v["v2"].proto[0], [("local", _by(s1.subroutines, "pc")), ("ancestor", _by(m0.subroutines, "pc"))])),
+        ("parent submodule of `submodule (m1:s1) s3` when m0 has a submodule s1 as well",
+         "same ancestor" if s3.parent_submodule is s1b else "by name" if s3.parent_submodule is s1 else "other"),
+        ("a name only the other module's submodule s1 can see", who(v["v3"].proto[0], [("linked", _by(m0.types, "ta")),
+                                                                                   ("linked", _by(s1.types, "ta"))])),
+        ("a type of the parent submodule", who(v["v4"].proto[0], [("linked", _by(s1.types, "tl"))])),
+        ("a type of the ancestor module, from a submodule of a submodule", who(v["v5"].proto[0], [("linked", _by(m0.types, "tm"))])),
+        ("interface of a separate module procedure whose name both the parent submodule and the ancestor module declare",
+         who(got["px"].module, [("parent submodule's", _by(s1.interfaces, "px")), ("ancestor module's", _by(m0.interfaces, "px"))])),
+    ]
+    return out
 
 
 def sub_variant():
-    """two characters: '1' = the parent's tables are `update`d into the submodule's (overwrite its
-    local declarations) / '0' = merged under them; '1' = the parent submodule is looked up by its
-    name alone / '0' = by ancestor module and name.  As read from the source."""
-    x = extract_sub()
-    stmts = [st for _, st in x["inherit"] if any(f"self.{t}" in st.split("=", 1)[0] or f"self.{t}.update" in st for t in _TABLES)]
-    if stmts and all(".update(self.parent_submodule." in st or ".update(self.ancestor_module." in st for st in stmts):
-        a = "1"
-    elif stmts and all(st.startswith("self.all_") and st.split("=", 1)[1].strip().startswith("{**")
-                       and st.split("=", 1)[1].rstrip("} ").split(",")[-1].strip().startswith("**self.all_") for st in stmts):
-        a = "0"
-    else:
-        raise LookupError("submodule branch of FortranCodeUnit.correlate: shape not recognised")
-    b = "0" if "ancestor" in x["parent_test"] else "1"
+    """two characters: '1' = the parent's entities overwrite a submodule's own same-named ones / '0' =
+    the submodule's own shadow them; '1' = the parent submodule is found by its name alone / '0' = by
+    ancestor module and name.  As probed."""
+    x = dict(probe_sub())
+    a = {"ancestor": "1", "local": "0"}.get(x["a type of the submodule and a same-named type of its ancestor module"])
+    a2 = {"ancestor": "1", "local": "0"}.get(x["a procedure of the submodule and a same-named procedure of its ancestor module"])
+    b = {"by name": "1", "same ancestor": "0"}.get(x["parent submodule of `submodule (m1:s1) s3` when m0 has a submodule s1 as well"])
+    if a is None or a != a2 or b is None:
+        raise LookupError("submodule witness: behaviour is neither of the modelled variants")
     return a + b
 
 
-def _lstr(xs):
-    return "[" + ", ".join('"%s"' % x for x in xs) + "]"
+# --------------------------------------------------------------------------------------------
+# every site that edits a name table (ast, normalised)
+# --------------------------------------------------------------------------------------------
+
+_TABLES = ("all_procs", "all_types", "all_absinterfaces")
+_WRITERS = ("update", "setdefault", "__setitem__", "__ior__")
+_REMOVERS = ("pop", "popitem", "clear", "__delitem__")
+# the methods FORD's framework calls on every object (a site of its own each); any other function that
+# is called from within the two files is a helper: what it does is done by its callers
+_ENTRY = ("correlate", "_cleanup", "_initialize", "_common_initialize", "__init__", "prune")
+# callables that read a dict they are handed but cannot edit it
+_PURE = ("dict", "len", "list", "sorted", "set", "frozenset", "tuple", "iter", "bool", "isinstance", "id", "repr", "str",
+         "print", "getattr", "hasattr", "copy", "deepcopy", "chain", "enumerate", "zip", "any", "all", "min", "max", "type")
+
+
+def _tables_of(node, alias):
+    """the name tables an expression may denote: `<obj>.all_X`, `getattr(<obj>, "all_X"[, default])`, a
+    local name / parameter bound to one, or `getattr(<obj>, name)` with `name` the variable of a loop
+    over a literal tuple of attribute names"""
+    if isinstance(node, ast.Attribute) and node.attr in _TABLES:
+        return {node.attr}
+    if isinstance(node, ast.Name) and node.id in alias:
+        return set(alias[node.id])
+    if isinstance(node, ast.Call) and isinstance(node.func, ast.Name) and node.func.id == "getattr" and len(node.args) >= 2:
+        return _names_of(node.args[1], alias)
+    return set()
+
+
+def _names_of(node, alias):
+    """the table names a string expression may stand for"""
+    if isinstance(node, ast.Constant) and node.value in _TABLES:
+        return {node.value}
+    if isinstance(node, ast.Name) and ("$" + node.id) in alias:
+        return set(alias["$" + node.id])
+    return set()
+
+
+def _local_aliases(fn, alias):
+    """`tbl = self.all_procs` makes `tbl` a name of the table; `for name in ("all_procs", ...)` makes
+    `name` stand for these attribute names (entered as `$name`).  Flow-insensitive."""
+    alias = {k: set(v) for k, v in alias.items()}
+    changed = True
+    while changed:
+        changed = False
+        for st in ast.walk(fn):
+            if isinstance(st, ast.Assign) and len(st.targets) == 1 and isinstance(st.targets[0], ast.Name):
+                t = _tables_of(st.value, alias)
+                if t - alias.get(st.targets[0].id, set()):
+                    alias.setdefault(st.targets[0].id, set()).update(t)
+                    changed = True
+            elif isinstance(st, (ast.For, ast.comprehension)) and isinstance(st.target, ast.Name) \
+                    and isinstance(st.iter, (ast.Tuple, ast.List)):
+                t = {e.value for e in st.iter.elts if isinstance(e, ast.Constant) and e.value in _TABLES}
+                if t - alias.get("$" + st.target.id, set()):
+                    alias.setdefault("$" + st.target.id, set()).update(t)
+                    changed = True
+    return alias
+
+
+def _callee_name(call):
+    f = call.func
+    if isinstance(f, ast.Name):
+        return f.id
+    if isinstance(f, ast.Attribute):
+        return f.attr
+    return None
+
+
+def _direct_ops(fn, alias):
+    """{(table, op)} of the statements of one function: op = bind (the attribute is (re)bound), write
+    (an entry is entered: d[k] = v, d.update, d.setdefault, d |= ...), remove (pop, del, clear)"""
+    ops = set()
+
+    def add(tables, op):
+        for t in tables:
+            ops.add((t, op))
+
+    for st in ast.walk(fn):
+        if isinstance(st, (ast.Assign, ast.AnnAssign, ast.AugAssign, ast.Delete)):
+            if isinstance(st, ast.AnnAssign) and st.value is None:
+                continue  # a bare annotation binds nothing
+            tgts = st.targets if isinstance(st, (ast.Assign, ast.Delete)) else [st.target]
+            flat = []
+            for t in tgts:
+                flat += list(t.elts) if isinstance(t, (ast.Tuple, ast.List)) else [t]
+            for t in flat:
+                if isinstance(t, ast.Subscript):
+                    add(_tables_of(t.value, alias), "remove" if isinstance(st, ast.Delete) else "write")
+                elif isinstance(t, ast.Attribute):
+                    add(_tables_of(t, alias), "remove" if isinstance(st, ast.Delete)
+                        else "write" if isinstance(st, ast.AugAssign) else "bind")
+                elif isinstance(t, ast.Name) and isinstance(st, ast.AugAssign):
+                    add(_tables_of(t, alias), "write")
+        elif isinstance(st, ast.Call) and isinstance(st.func, ast.Attribute) \
+                and (st.func.attr in _WRITERS or st.func.attr in _REMOVERS):
+            add(_tables_of(st.func.value, alias), "write" if st.func.attr in _WRITERS else "remove")
+        elif isinstance(st, ast.Call) and isinstance(st.func, ast.Name) and st.func.id in ("setattr", "delattr") \
+                and len(st.args) >= 2:
+            add(_names_of(st.args[1], alias), "bind" if st.func.id == "setattr" else "remove")
+    return ops
+
+
+def _params(fn):
+    a = fn.args
+    return [x.arg for x in a.posonlyargs + a.args], [x.arg for x in a.kwonlyargs]
+
+
+def _total_ops(fn, alias, defs, seen, depth=0):
+    """the operations of a function and of the helpers it calls (a table handed to a helper as an
+    argument is followed into the helper's parameter)"""
+    alias = _local_aliases(fn, alias)
+    ops = _direct_ops(fn, alias)
+    if depth >= 5:
+        return ops
+    for call in ast.walk(fn):
+        if not isinstance(call, ast.Call):
+            continue
+        name = _callee_name(call)
+        handed = [(i, frozenset(_tables_of(a, alias))) for i, a in enumerate(call.args) if _tables_of(a, alias)]
+        handed_kw = [(k.arg, frozenset(_tables_of(k.value, alias))) for k in call.keywords if k.arg and _tables_of(k.value, alias)]
+        if name is None or name in _ENTRY:
+            continue
+        cands = defs.get(name, [])
+        if not cands:
+            # an unknown plain function that is handed a table may edit it (a method of some other
+            # object - `merged.update(table)`, `chain(...)` - only reads it)
+            if (handed or handed_kw) and name not in _PURE and isinstance(call.func, ast.Name):
+                for _, ts in handed + handed_kw:
+                    for t in ts:
+                        ops.add((t, f"handed to {name}"))
+            continue
+        for is_method, callee in cands:
+            if isinstance(call.func, ast.Name) and is_method:
+                continue  # a plain name does not call a method
+            key = (id(callee), tuple(sorted(handed, key=repr)), tuple(sorted(handed_kw, key=repr)))
+            if key in seen:
+                continue
+            pos, kwonly = _params(callee)
+            if is_method and isinstance(call.func, ast.Attribute):
+                pos = pos[1:]  # self
+            sub = {}
+            for i, t in handed:
+                if i < len(pos):
+                    sub[pos[i]] = set(t)
+            for k, t in handed_kw:
+                if k in pos or k in kwonly:
+                    sub[k] = set(t)
+            ops |= _total_ops(callee, sub, defs, seen | {key}, depth + 1)
+    return ops
+
+
+def extract_mutations():
+    """[(site, table, op)] in source order of the sites; per site sorted.  A site is a function that the
+    framework calls (`correlate`, `_cleanup`, ...) or that nothing in the two files calls; the
+    operations of a helper belong to its callers."""
+    trees = [(rel, ast.parse((common.REPO / "ford" / rel).read_text())) for rel in ("sourceform.py", "fortran_project.py")]
+    defs: dict = {}
+    funcs = []  # (site name, node)
+    for rel, tree in trees:
+        for node in tree.body:
+            if isinstance(node, (ast.FunctionDef, ast.AsyncFunctionDef)):
+                defs.setdefault(node.name, []).append((False, node))
+                funcs.append((f"{rel[:-3]}.{node.name}", node))
+            elif isinstance(node, ast.ClassDef):
+                for m in node.body:
+                    if isinstance(m, (ast.FunctionDef, ast.AsyncFunctionDef)):
+                        defs.setdefault(m.name, []).append((True, m))
+                        funcs.append((f"{node.name}.{m.name}", m))
+    called = set()
+    for _, tree in trees:
+        for n in ast.walk(tree):
+            if isinstance(n, ast.Call) and _callee_name(n):
+                called.add(_callee_name(n))
+    out = []
+    for site, node in funcs:
+        if node.name not in _ENTRY and node.name in called:
+            continue  # a helper
+        for tb, op in sorted(_total_ops(node, {}, defs, frozenset())):
+            out.append((site, tb, op))
+    sites = [s for s, _, _ in out]
+    if "FortranCodeUnit.correlate" not in sites or "FortranCodeUnit._cleanup" not in sites:
+        raise LookupError("construction of the name tables in FortranCodeUnit._cleanup / correlate not found")
+    return out
+
+
+# --------------------------------------------------------------------------------------------
+# Generated/C07.lean
+# --------------------------------------------------------------------------------------------
 
 
 def _q(x):
     return '"' + x.replace("\\", "\\\\").replace('"', '\\"') + '"'
 
 
+def _lstr(xs):
+    return "[" + ", ".join(_q(x) for x in xs) + "]"
+
+
 def _ltup(xs):
     return "[" + ", ".join("(" + ", ".join(_q(y) for y in x) + ")" for x in xs) + "]"
 
 
+def _b(x):
+    return "true" if x else "false"
+
+
+def _chars(s):
+    return "[" + ", ".join("'%s'" % c for c in s) + "]"
+
+
+def _opt(e):
+    return "none" if e is None else f"some {e}"
+
+
 def generate():
-    x = extract()
-    u = extract_use()
-    b = extract_blocks()
-    bp = extract_bound()
+    rec = probe_recursion()
+    host = probe_host()
+    lk = probe_lookups()
+    use = probe_use()
+    blk = probe_blocks()
+    gen = probe_generic()
+    sub = probe_sub()
     mut = extract_mutations()
-    inh = extract_inherit()
-    sub = extract_sub()
+    use_lines = []
+    for only, items, res in use:
+        use_lines.append(
+            "  (" + _b(only) + ", [" + ", ".join(f"({_chars(l)}, {_chars(r)})" for l, r in items) + "],\n    ["
+            + ", ".join(f"({_b(t)}, {_chars(n)}, {_opt(e)})" for t, n, e in res) + "])")
     lines = [
-        "/- GENERATED by translate/c07.py from ford/sourceform.py - do not edit -/",
+        "/- GENERATED by translate/c07.py by probing the working tree of FORD (witness projects run through",
+        "   the real parser and Project.correlate()) - do not edit -/",
         "namespace Ford.C07Gen",
         "",
-        "/-- names passed to `self.iterator(...)` in the recursion of FortranCodeUnit.correlate -/",
-        f"def correlateRecursion : List String := {_lstr(x['recursion'])}",
+        "/-- the lists of a code unit in the order FortranCodeUnit.correlate correlates their members",
+        "    (derived types left out: `typesBeforeRecursion`) -/",
+        f"def correlateRecursion : List String := {_lstr(rec['recursion'])}",
         "",
-        "/-- the derived types of a unit are correlated before the recursion into nested units -/",
-        f"def typesBeforeRecursion : Bool := {'true' if x['types_before'] else 'false'}",
+        "/-- the derived types of a unit are correlated before everything else it holds -/",
+        f"def typesBeforeRecursion : Bool := {_b(rec['types_before'])}",
         "",
         "/-- how the host's table reaches a nested unit -/",
         "def hostTables : List (String × String) := ["
-        + ", ".join(f'("{k}", "{v}")' for k, v in x["host"].items()) + "]",
+        + ", ".join(f"({_q(k)}, {_q(host[k])})" for k in ("all_procs", "all_absinterfaces", "all_types")) + "]",
         "",
-        "/-- `used_objects` of FortranModule.get_used_entities: values `result` is bound to -/",
-        f"def usedObjectsInit : List String := [{', '.join(_q(v) for v in u['used_objects']['init'])}]",
-        "",
-        "/-- ... what its loops iterate -/",
-        f"def usedObjectsLoops : List String := [{', '.join(_q(v) for v in u['used_objects']['loops'])}]",
-        "",
-        "/-- ... every `result[key] = value`: (conditions, key, value) -/",
-        f"def usedObjectsWrites : List (String × String × String) := {_ltup(u['used_objects']['writes'])}",
-        "",
-        "/-- ... any other statement that touches `result` -/",
-        f"def usedObjectsOther : List String := [{', '.join(_q(v) for v in u['used_objects']['other'])}]",
-        "",
-        "/-- the tables `used_objects` is applied to -/",
-        f"def usedObjectsCalls : List String := [{', '.join(_q(v) for v in u['calls'])}]",
-        "",
-        "/-- every `used_names[key] = value` of get_used_entities: (conditions, key, value) -/",
-        f"def usedNamesWrites : List (String × String × String) := {_ltup(u['used_names']['writes'])}",
-        "",
-        "/-- a USE without list: (condition, returned tables) -/",
-        f"def useWithoutList : String × String := ({_q(u['whole'][0])}, {_q(u['whole'][1])})",
-        "",
-        "/-- statement dispatcher FortranContainer.__init__: (regular expression the branch tests, the test has",
-        "    the conjunct `blocklevel == 0`) in source order -/",
-        "def blockGuards : List (String × Bool) := ["
-        + ", ".join(f'({_q(k)}, {"true" if v else "false"})' for k, v in b["guards"]) + "]",
-        "",
-        "/-- where `blocklevel` is counted: (branch, statement) -/",
-        f"def blockCounter : List (String × String) := {_ltup(b['counter'])}",
-        "",
-        "/-- the body of the USE branch looks at `blocklevel` itself -/",
-        f"def useBranchBlockAware : Bool := {'true' if b['use_aware'] else 'false'}",
-        "",
-        "/-- `FortranBoundProcedure.correlate`: every `self.bindings[i] = <value>`: (conditions, value) -/",
-        f"def boundBindingWrites : List (String × String) := {_ltup(bp['writes'])}",
-        "",
-        "/-- ... every `self.proto = <value>`: (conditions, value) -/",
-        f"def boundProtoWrites : List (String × String) := {_ltup(bp['protos'])}",
-        "",
-        "/-- ... the local dicts it builds from name tables: (conditions, name, value) -/",
-        f"def boundLocalTables : List (String × String × String) := {_ltup(bp['local'])}",
-        "",
-        "/-- ... any other statement that writes into a `bindings` list -/",
-        f"def boundOtherWrites : List String := [{', '.join(_q(v) for v in bp['other'])}]",
-        "",
-        "/-- every statement of ford/sourceform.py and ford/fortran_project.py that binds or mutates a name table",
-        "    `all_procs` / `all_types` / `all_absinterfaces`: (Class.method, statement) -/",
-        f"def nameTableMutations : List (String × String) := {_ltup(mut)}",
-        "",
-        "/-- ... the methods that contain one, in source order -/",
-        f"def nameTableSites : List String := {_lstr(list(dict.fromkeys(m for m, _ in mut)))}",
-        "",
-        "/-- ... those of the `_cleanup` methods (the local procedures of a unit) -/",
-        f"def cleanupTableWrites : List (String × String) := {_ltup([m for m in mut if m[0].endswith('._cleanup')])}",
-        "",
-        "/-- ... those of FortranCodeUnit.correlate that do not read the host's (`self.parent`) table:",
-        "    local declarations, USE imports (the submodule inheritance is `submoduleInherit`) -/",
-        "def correlateTableWrites : List String := ["
-        + ", ".join(_q(st) for m, st in mut if m == "FortranCodeUnit.correlate" and "self.parent," not in st and "self.parent." not in st
-                    and not any(w in st for w in _SUB_HOSTS)) + "]",
-        "",
-        "/-- `FortranType.correlate`: the statements of the `bp.generic` branches of the loop over the parent's bindings -/",
-        f"def inheritedGenericStmts : List String := [{', '.join(_q(v) for v in inh['branches'])}]",
-        "",
-        "/-- ... what `self.boundprocs` is rebuilt from -/",
-        f"def boundprocsBuild : List String := [{', '.join(_q(v) for v in inh['build'])}]",
-        "",
-        "/-- the test with which find_used_modules picks the parent submodule out of the project's list -/",
-        f"def submoduleParentTest : String := {_q(sub['parent_test'])}",
-        "",
-        "/-- the statements of the FortranSubmodule branch of FortranCodeUnit.correlate that touch a name table:",
-        "    (conditions inside the branch, statement) -/",
-        f"def submoduleInherit : List (String × String) := {_ltup(sub['inherit'])}",
-        "",
-        "/-- per reference owner class, the name tables its `correlate` mentions, in source order -/",
+        "/-- per kind of reference: the name spaces it is looked up in, in priority order -/",
         "def slotLookups : List (String × List String) := ["
-        + ", ".join(f"({_q(k)}, {_lstr(v)})" for k, v in x["lookups"].items()) + "]",
+        + ", ".join(f"({_q(k)}, {_lstr(lk['priority'][k])})" for k in _REF_KINDS) + "]",
+        "",
+        "/-- a reference is found whatever its letter case -/",
+        f"def lookupsIgnoreCase : Bool := {_b(lk['ignore_case'])}",
+        "",
+        "/-- the public entities of the used module of the USE witness: derived types, procedures, abstract interfaces",
+        "    (head = declared last) -/",
+        "def usePubTypes : List (List Char × Nat) := [" + ", ".join(f"({_chars(n)}, {e})" for n, e in reversed(USE_TYPES)) + "]",
+        "def usePubProcs : List (List Char × Nat) := [" + ", ".join(f"({_chars(n)}, {e})" for n, e in reversed(USE_PROCS)) + "]",
+        "def usePubAbs : List (List Char × Nat) := [" + ", ".join(f"({_chars(n)}, {e})" for n, e in reversed(USE_ABS)) + "]",
+        "",
+        "/-- USE statements (has ONLY, items (local name, name in the module)) and what every candidate name denotes in",
+        "    the using unit: (type(...) reference / procedure(...) reference, name, entity) -/",
+        "def useProbes : List (Bool × List (List Char × List Char) × List (Bool × List Char × Option Nat)) := [",
+        ",\n".join(use_lines) + "]",
+        "",
+        "/-- statement kinds inside a BLOCK construct: is the statement filed in the enclosing unit -/",
+        "def blockFiled : List (String × Bool) := [" + ", ".join(f"({_q(k)}, {_b(v)})" for k, v in blk["filed"]) + "]",
+        "",
+        "/-- nested and labelled BLOCK constructs are counted -/",
+        "def blockNesting : List (String × Bool) := [" + ", ".join(f"({_q(k)}, {_b(v)})" for k, v in blk["nesting"]) + "]",
+        "",
+        "/-- the copy of a generic binding an extension inherits shares the parent's list of specifics -/",
+        f"def inheritedGenericShared : Bool := {_b(gen['shared'])}",
+        "",
+        "/-- after an extension overrode the specific: whose binding the PARENT's generic / the extension's copy names -/",
+        f"def inheritedGenericWitness : String × String := ({_q(gen['witness'])}, {_q(gen['witness_ext'])})",
+        "",
+        "/-- `boundprocs` of the extension (ta: pa pz g1; tb overrides pa) -/",
+        f"def boundprocsOrder : List String := {_lstr(gen['order'])}",
+        "",
+        "/-- submodule witness: (situation, what FORD does) -/",
+        f"def submoduleProbes : List (String × String) := {_ltup(sub)}",
+        "",
+        "/-- every function of ford/sourceform.py and ford/fortran_project.py that binds / writes into / removes from a",
+        "    name table `all_procs` / `all_types` / `all_absinterfaces`: (site, table, operation), a set per site -/",
+        f"def nameTableOps : List (String × String × String) := {_ltup(mut)}",
+        "",
+        "/-- ... the sites, in source order -/",
+        f"def nameTableSites : List String := {_lstr(list(dict.fromkeys(s for s, _, _ in mut)))}",
         "",
         "end Ford.C07Gen",
         "",
     ]
     common.write_if_changed(common.LEAN / "FordModel" / "Generated" / "C07.lean", "\n".join(lines))
-    return x
+    return {"recursion": rec, "host": host, "lookups": lk, "use": use, "blocks": blk, "generic": gen, "sub": sub}
 
 
 if __name__ == "__main__":
-    print(generate())
+    import pprint
+
+    pprint.pprint(generate())
+    pprint.pprint(extract_mutations())
